@@ -65,14 +65,24 @@ Arm(t) ==
   /\ SetTx(t, [tx[t] EXCEPT !.armed = TRUE])
   /\ UNCHANGED <<cat, db>>
 
-\* NewBtree: creates the store if absent (registered at once, owned by t until t ends), else opens it
-NewStore(t, s, unique, ok) ==
+\* NewBtree, first half: the store is registered in the repository as soon as the call starts working
+\* (StoreRepository.Add runs inside NewBtree, long before the call returns; owned by t until t ends)
+NewStoreBegin(t, s, unique) ==
   /\ Active(t)
   /\ IF s \notin DOMAIN cat
-     THEN /\ ok
-          /\ cat' = cat @@ (s :> [unique |-> unique, by |-> t])
+     THEN /\ cat' = cat @@ (s :> [unique |-> unique, by |-> t])
           /\ db'  = db @@ (s :> {})
-          /\ SetTx(t, [tx[t] EXCEPT !.opened = @ \cup {s}, !.created = @ \cup {s}])
+          /\ SetTx(t, [tx[t] EXCEPT !.created = @ \cup {s}])
+     ELSE UNCHANGED vars
+
+\* NewBtree returns: created by this call, or opened if it existed with compatible options
+NewStore(t, s, unique, ok) ==
+  /\ Active(t)
+  /\ s \in DOMAIN cat
+  /\ IF s \in tx[t].created
+     THEN /\ ok
+          /\ SetTx(t, [tx[t] EXCEPT !.opened = @ \cup {s}])
+          /\ UNCHANGED <<cat, db>>
      ELSE /\ ok = (cat[s].unique = unique)
           /\ IF ok THEN SetTx(t, [tx[t] EXCEPT !.opened = @ \cup {s}]) /\ UNCHANGED <<cat, db>>
              ELSE \* incompatible options: the transaction is rolled back
@@ -82,7 +92,9 @@ NewStore(t, s, unique, ok) ==
 
 OpenStore(t, s, ok) ==
   /\ Active(t)
-  /\ ok = (s \in DOMAIN cat)
+  /\ \/ ok = (s \in DOMAIN cat)
+     \* deviation of the code: a store whose creating transaction is still in flight may be listed but not yet openable
+     \/ (~ok /\ s \in DOMAIN cat /\ cat[s].by # "" /\ cat[s].by # t)
   /\ IF ok THEN SetTx(t, [tx[t] EXCEPT !.opened = @ \cup {s}]) /\ UNCHANGED <<cat, db>>
      ELSE /\ SetTx(t, [tx[t] EXCEPT !.st = "done", !.outcome = "rolledback"])
           /\ cat' = WithoutAll(cat, tx[t].created)
